@@ -88,7 +88,7 @@ PROPS = {
     },
     "C01": {
         "level": "proof",
-        "units": ["nameparse", "labeliter", "sections", "optiter", "txtdata", "svcparams"],
+        "units": ["nameparse", "labeliter", "sections", "optiter", "txtdata", "svcparams", "wirehdr"],
         "vx_search": {"bin": "c01_search_small_names", "crate": "replay", "release": True,
                       "what": "16.4 million (octet string of at most 7 octets over 8 parser-relevant octets, offset) pairs and 3 million small messages (section counts 0..=2, body of at most 5 octets) walked twice: ParsedName::parse, "
                               "label iteration both ways, flattening, as_flat_slice, compose_len, equality and Label::iter_slice on the real "
@@ -199,7 +199,7 @@ PROPS = {
     "C02": {
         "level": "proof",
         "level_prefix": "Partial proof -- contracts discharged without bound on the mechanisms named below, not the whole statement (bounded stand-ins and what is left out are listed): ",
-        "units": ["compressors", "msgbuilder", "msgsections"],
+        "units": ["compressors", "msgbuilder", "msgsections", "wirehdr"],
         "vx_search": {"bin": "c02_search_builder_sequences", "crate": "replay", "release": True,
                       "what": "22621 sequences of at most 4 answer pushes (three owner names sharing suffixes; unrestricted or under a push limit "
                               "that makes the push fail after 1, 5 or 12 octets) x {no compressor, Static-, Tree-, HashCompressor}: the message "
@@ -208,6 +208,10 @@ PROPS = {
             {"group": "g0", "name": "c02_header_counts_inc_total", "kind": "complete", "tier": "quick",
              "what": "HeaderCounts::inc_{qd,an,ns,ar}count on every 12-octet header: exact increment, CountOverflow exactly at 0xFFFF, "
                      "all other counts and the first four header octets unchanged"},
+            {"group": "g0", "name": "c02_wire_header_u16_fields", "kind": "complete", "tier": "quick",
+             "what": "the two-octet fields of Header (ID), HeaderCounts (all eight accessors and setters) and OptHeader (UDP payload size) "
+                     "as compiled (from_be_bytes(..try_into().unwrap()) / copy_from_slice(&to_be_bytes()), which unit wirehdr substitutes): "
+                     "getters read the big-endian pair at the RFC position, setters write exactly that pair; every 21-octet content, every value"},
             {"group": "g0", "name": "c02_stream_target_length_limit", "kind": "complete", "tier": "quick",
              "what": "StreamTarget::append_slice over a target whose length jumps by a symbolic amount: refused exactly when the message "
                      "would exceed 65535 octets, prefix == message length after every accepted append, for every length up to 65590"},
@@ -221,8 +225,13 @@ PROPS = {
         "replays": [
             {"bin": "d39_optbuilder_push_no_rollback", "finding": "D39"},
             {"bin": "d4_compress_pointer_beyond_3fff", "finding": "D4"},
+            {"bin": "d57_set_opcode_wide_value", "finding": "D57"},
         ],
-        "explanation": "bounded contract checking plus unbounded contracts on the compressor position tables. Verus (unbounded): "
+        "explanation": "Unit wirehdr (unbounded): every accessor of Header, HeaderCounts, OptHeader and OptRcode against the bit positions of "
+                       "RFC 1035 4.1.1 / RFC 6891 6.1.3 -- a getter reads exactly its field, a setter changes exactly its field to the value given "
+                       "(the whole octet array after the call is stated), set_flags leaves ID/opcode/Z/rcode alone, inc_*count refuses exactly at "
+                       "65535 and changes nothing then, the two halves of an extended rcode reassemble (lemma_opt_rcode_parts). Then: " +
+                        "bounded contract checking plus unbounded contracts on the compressor position tables. Verus (unbounded): "
                        "StaticCompressor::insert remembers a position only if it is below 0x4000 (so `pos | 0xC000` is a faithful "
                        "RFC 1035 4.1.4 pointer: lemma_pointer_faithful), keeps the table sorted and in range; Truncate for "
                        "StaticCompressor forgets exactly the entries at or behind the cut; HashEntry::new accepts a head position "
